@@ -181,6 +181,33 @@ fn arbitrary_command(rng: &mut Rng, stream_hint: u32) -> (RMsg, u32) {
                     ])
                 },
             ],
+            4 if rng.chance(3, 4) => {
+                // each known metadata key (and some others) with a value of an arbitrary type:
+                // numbers of every kind, strings of 0-5 characters (ASCII and not), containers
+                const KEYS: [&str; 16] = ["width", "height", "videocodecid", "videodatarate", "framerate", "audiocodecid", "audiodatarate", "audiosamplerate", "audiosamplesize", "audiochannels", "stereo", "encoder", "duration", "filesize", "title", "keyframes"];
+                let mut props: Vec<(&str, V)> = Vec::new();
+                for k in KEYS.iter() {
+                    if rng.chance(1, 3) {
+                        continue;
+                    }
+                    let v = match rng.below(10) {
+                        0 => amf::s(""),
+                        1 => amf::s(*rng.pick(&["a", "é", "av", "avc", "avc1", "mp4a", "中", "😀", ".", "44100"])),
+                        2 => amf::num(*rng.pick(&[0.0, -1.0, 7.0, 10.0, 1e300, -1e300, f64::NAN, f64::INFINITY, 4294967296.0, 0.5])),
+                        3 => V::Bool(rng.coin()),
+                        4 => V::Null,
+                        5 => V::Undef,
+                        6 => V::Arr(vec![]),
+                        7 => amf::obj(vec![]),
+                        _ => arbitrary_arg(rng),
+                    };
+                    props.push((*k, v));
+                }
+                let head = if rng.coin() { vec![amf::s("@setDataFrame"), amf::s("onMetaData")] } else { vec![amf::s("onMetaData")] };
+                let mut vs = head;
+                vs.push(amf::obj(props));
+                vs
+            }
             4 => vec![amf::s("@setDataFrame"), amf::num(5.0)],
             5 => vec![amf::s("@setDataFrame"), amf::s("onMetaData"), arbitrary_arg(rng)],
             6 => vec![amf::s("onMetaData")],
@@ -904,8 +931,8 @@ impl Check for C03 {
     }
     fn plan(&self, tier: Tier) -> Plan {
         let mut p = Plan::new(tier.pick(1_500_000, 150_000_000), tier.pick(30.0, 480.0));
-        p.mandatory = 2;
-        p.cpu_budget_s = 20.0;
+        p.mandatory = 4;
+        p.cpu_budget_s = 60.0;
         p
     }
     fn selftest(&self) -> Result<(), String> {
@@ -921,6 +948,14 @@ impl Check for C03 {
         }
         if k == 1 {
             f15_case(out);
+            return;
+        }
+        if k == 2 || k == 3 {
+            // a long-lived connection: more than 2^32 bytes received in total with an
+            // acknowledgement window of 1 GiB in force (counters that wrap, differences that go
+            // negative); the acknowledgements themselves are judged by C17's monitor
+            super::c17::volume_run_w(k == 2, 1 << 30, (1u64 << 32) + (300 << 20), out);
+            out.count("calls_monitored", 280);
             return;
         }
         out.eval(1);
@@ -965,7 +1000,7 @@ impl Check for C03 {
         out.sample(|| json!({"target": target_name, "state": if target_name == "server" { SERVER_STATES[state] } else if target_name == "client" { CLIENT_STATES[state] } else { "-" }, "generator": GENERATORS[gen]}));
     }
     fn rule(&self) -> String {
-        "targets {Handshake (both roles, with/without generated p0+p1), ChunkDeserializer + MessagePayload::to_rtmp_message on everything it returns, MessagePayload::to_rtmp_message / rml_amf0::deserialize on arbitrary (type id, body), ServerSession in 10 state classes, ClientSession in 10 state classes} x generators {random bytes (optionally with a valid basic header); well-formed chunk streams carrying arbitrary (type id, body) with bodies empty/short/random/valid/valid-truncated/wrong-arity AMF0/AMF0 nested <= 32/declared lengths with nothing behind/mutated; protocol commands and data messages with arbitrary argument lists (NaN, negative, huge, fractional ids; missing and ill-typed arguments; AMF3-flagged) interleaved with media and application calls with arbitrary ids; chunk-level hostility (shrinking length mid-message, delta headers with small extended timestamps, compressed headers on unseen csids, chunk sizes 0/1/2^31-1/top bit, aborts, zero-length messages, 16 MiB announced with few bytes, hundreds of distinct csids, stray type-3 chunks, arbitrary header fields); mutated valid foreign streams; valid foreign streams}, enumerated round-robin (every target-state x generator pair), each fed in a random partition. Session states are reached by a valid prefix with a reference-encoding peer. Case 0 replays the fixed witnesses of the defects found on the pinned tree; case 1 exhibits the recorded finding F15 (per-event copies of a 60,000-byte application name and stream key, one per one-byte zero-length message). Allocation explained by such copies is reported under F15's signature, anything beyond under the general one. Every library call runs under the panic monitor (overflow-checks and debug-assertions on), the allocator bound peak <= 256 x bytes fed + 33 MiB and the 20 s CPU watchdog. distinct = (target, state, generator) x bucketed observation (calls returning Ok, calls returning Err, messages decoded, number of calls).".to_string()
+        "targets {Handshake (both roles, with/without generated p0+p1), ChunkDeserializer + MessagePayload::to_rtmp_message on everything it returns, MessagePayload::to_rtmp_message / rml_amf0::deserialize on arbitrary (type id, body), ServerSession in 10 state classes, ClientSession in 10 state classes} x generators {random bytes (optionally with a valid basic header); well-formed chunk streams carrying arbitrary (type id, body) with bodies empty/short/random/valid/valid-truncated/wrong-arity AMF0/AMF0 nested <= 32/declared lengths with nothing behind/mutated; protocol commands and data messages with arbitrary argument lists (NaN, negative, huge, fractional ids; missing and ill-typed arguments; AMF3-flagged) interleaved with media and application calls with arbitrary ids; chunk-level hostility (shrinking length mid-message, delta headers with small extended timestamps, compressed headers on unseen csids, chunk sizes 0/1/2^31-1/top bit, aborts, zero-length messages, 16 MiB announced with few bytes, hundreds of distinct csids, stray type-3 chunks, arbitrary header fields); mutated valid foreign streams; valid foreign streams}, enumerated round-robin (every target-state x generator pair), each fed in a random partition. Session states are reached by a valid prefix with a reference-encoding peer. Case 0 replays the fixed witnesses of the defects found on the pinned tree; case 1 exhibits the recorded finding F15 (per-event copies of a 60,000-byte application name and stream key, one per one-byte zero-length message). Allocation explained by such copies is reported under F15's signature, anything beyond under the general one. Cases 2 and 3 feed a server and a client session 2^32 + 300 MiB in 16 MiB calls with an acknowledgement window of 1 GiB in force. Every library call runs under the panic monitor (overflow-checks and debug-assertions on), the allocator bound peak <= 256 x bytes fed + 33 MiB and the 20 s CPU watchdog. distinct = (target, state, generator) x bucketed observation (calls returning Ok, calls returning Err, messages decoded, number of calls).".to_string()
     }
     fn assumptions(&self) -> Vec<String> {
         vec![
